@@ -647,7 +647,9 @@ class ApplicationEntity:
             )
 
         # Set using a copy of the original to play nicely
-        contexts = deepcopy(contexts)
+        #   (copy each item separately as the same context may be in the
+        #   list more than once and each needs its own ID)
+        contexts = [deepcopy(cx) for cx in contexts]
 
         # Add the context IDs
         for ii, context in enumerate(contexts):
